@@ -591,19 +591,28 @@ def tlc_parallel(scratch, runs, timeout=900, coverage=False):
     return results
 
 
-def export_jsontext(scratch):
-    """Have TLC evaluate JsonText's transition table and byte-class map; returns the path of a JSON file."""
-    res = run_tlc(scratch, "JsonTextExport", "JsonTextExport.cfg", workers=1, timeout=120)
-    require_tlc_ok(res, "JsonTextExport")
+def export_jsontext(scratch, transform=False):
+    """Have TLC evaluate JsonText's transition table and byte-class map (and, with transform=True, the Compact /
+    Indent emission tables of JsonTransform); returns the path of a JSON file."""
+    mod = "JsonTransformExport" if transform else "JsonTextExport"
+    res = run_tlc(scratch, mod, mod + ".cfg", workers=1, timeout=120)
+    require_tlc_ok(res, mod)
     try:
         tab = res.prints["EXPORT-TABLE"][0]
         cls = res.prints["EXPORT-CLASSES"][0]
         nd = res.prints["EXPORT-NUMDONE"][0]
     except (KeyError, IndexError):
         raise Infra("JsonTextExport printed no table: " + res.raw[-800:])
-    p = os.path.join(scratch.path, "jsontext-table.json")
+    d = dict(table=tab, classes=cls, numdone=nd)
+    if transform:
+        try:
+            d["compact"] = res.prints["EXPORT-COMPACT"][0]
+            d["indent"] = res.prints["EXPORT-INDENT"][0]
+        except (KeyError, IndexError):
+            raise Infra("JsonTransformExport printed no emission tables")
+    p = os.path.join(scratch.path, "jsontext-table%s.json" % ("-x" if transform else ""))
     with open(p, "w") as f:
-        json.dump(dict(table=tab, classes=cls, numdone=nd), f)
+        json.dump(d, f)
     return p, res
 
 
@@ -671,3 +680,18 @@ def generic_replay(scratch, rp, runner):
     job = dict(prop=rp["property"], tier="quick", seed=seed(), shard=0, shards=1, resume=0, only=-1, cur_file="",
                params=rp.get("params") or {}, replay=rp.get("case"))
     return binary, job
+
+
+def finish_replay(prop, binary, runner, job, scratch, timeout=300, env=None):
+    rc, so, se, to = run_single(binary, runner, job, scratch, timeout=timeout, env=env)
+    out = WorkerOutcome()
+    _parse_lines(so, out)
+    if rc != 0 or to:
+        print("replay: worker died or hung (rc=%s)\n%s" % (rc, se[-1500:]))
+        return 1
+    if out.sigs:
+        for s, st in out.sigs.items():
+            print("replay reproduces: %s -- %s" % (s, (st["details"] or [""])[0]))
+        return 1
+    print("replay: no divergence")
+    return 0
